@@ -354,7 +354,7 @@ Let Hts : fts (c_spec c) = false := proj1 (proj2 Hcfg).
 (* ---- the loop of the cleanup ---- *)
 (* the newest n entries are kept *)
 Lemma cleanup_loop_skip : forall a b w idx, idx + length a <= n ->
-  cleanup_loop w (a ++ b) idx n (n + 0) = cleanup_loop w b (idx + length a) n (n + 0).
+  cleanup_loop w (a ++ b) idx n (n + 0) None = cleanup_loop w b (idx + length a) n (n + 0) None.
 Proof.
   induction a as [|x a IH]; intros b w idx H; cbn [app length]; [rewrite (Nat.add_0_r idx); reflexivity|].
   cbn [length] in H. cbn [cleanup_loop].
@@ -365,7 +365,7 @@ Qed.
 (* the older ones are removed, newest first, until a remove_file fails *)
 Lemma cleanup_loop_remove : forall desc A B q fl idx o, (desc = [] \/ n <= idx) -> quiet q ->
   gdir c (wfs q) (A ++ rev desc ++ B) o ->
-  exists q', cleanup_loop (fw q fl) (List.map (fun p => rname c (fst p)) desc) idx n (n + 0)
+  exists q', cleanup_loop (fw q fl) (List.map (fun p => rname c (fst p)) desc) idx n (n + 0) None
              = (snd (fst (s_remove desc fl)), fw q' (snd (s_remove desc fl)))
     /\ same_env q q' /\ inodes (wfs q') = inodes (wfs q)
     /\ gdir c (wfs q') (A ++ rev (fst (fst (s_remove desc fl))) ++ B) o.
@@ -387,7 +387,7 @@ Qed.
 
 (* ---- one cleanup ---- *)
 Lemma cleanup_impl_fw q fl cl o : quiet q -> gdir c (wfs q) cl o ->
-  exists q', cleanup_impl c (fw q fl) (KLog n) IFNum false
+  exists q', cleanup_impl c (fw q fl) (KLog n) IFNum None
              = ((if snd (fst (s_cleanup n cl fl)) then Ok tt else Err), fw q' (snd (s_cleanup n cl fl)))
     /\ same_env q q' /\ inodes (wfs q') = inodes (wfs q) /\ gdir c (wfs q') (fst (fst (s_cleanup n cl fl))) o.
 Proof.
@@ -419,7 +419,7 @@ Lemma mount_next_k_unfold w idx cur wr : wpend wr = [] -> (m <? cur)%N = true ->
   | (Ok idx', w') =>
     match open_log_file c w' (Some cur_infix) with
     | (Ok (wr', path'), w2) =>
-      let '(rc, w4) := cleanup_impl c w2 (KLog n) IFNum false in
+      let '(rc, w4) := cleanup_impl c w2 (KLog n) IFNum None in
       (match rc with Ok _ => Ok tt | Err => Err | Panic => Panic end, w4,
        Active (Some (mk_rsk (KLog n) (NSNumR idx') (RSize m 0))) wr' path')
     | (Err, w2) => (Err, w2, actk idx' cur wr)
@@ -435,7 +435,7 @@ Proof.
   destruct (open_log_file c w' (Some cur_infix)) as [[[wr' path']| |] w2]; try reflexivity.
   rewrite w_flush_nop by exact Hp. cbv beta iota zeta. rewrite w_drop_nop by reflexivity.
   unfold cleanup_or_queue. cbn [reset_size_and_date ns_filter ns_writes_direct].
-  destruct (cleanup_impl c w2 (KLog n) IFNum false) as [rc w4]. reflexivity.
+  destruct (cleanup_impl c w2 (KLog n) IFNum None) as [rc w4]. reflexivity.
 Qed.
 
 Lemma mount_next_k_idle w idx cur wr : (m <? cur)%N = false -> mount_next c w (actk idx cur wr) false = (Ok tt, w, actk idx cur wr).
@@ -728,7 +728,7 @@ Lemma init_tail_fw B q1 fl2 (cl1 : cdir) (created1 : bool) (idx1 : nat) :
       bind (open_log_file c (fw q1 fl2) (Some cur_infix)) (fun wp w2 =>
         let '(wr, path) := wp in
         bind (roll_new w2 (CSize m) (c_append c) path) (fun roll w3 =>
-        bind (cleanup_impl c w3 (KLog n) IFNum false) (fun _ w4 =>
+        bind (cleanup_impl c w3 (KLog n) IFNum None) (fun _ w4 =>
         (Ok (Active (Some {| rs_naming := NSNumR (N.of_nat idx1); rs_roll := roll; rs_cleanup := KLog n; rs_bg := c_bg c |}) wr path),
          if c_bg c then set_acts w4 0 else w4))))
       = (Err, fw q' fl') /\ same_env q1 q' /\ DI q' cl' cr /\ (N.of_nat (next_idx cl' + B) <= u32_max)%N
@@ -737,7 +737,7 @@ Lemma init_tail_fw B q1 fl2 (cl1 : cdir) (created1 : bool) (idx1 : nat) :
       bind (open_log_file c (fw q1 fl2) (Some cur_infix)) (fun wp w2 =>
         let '(wr, path) := wp in
         bind (roll_new w2 (CSize m) (c_append c) path) (fun roll w3 =>
-        bind (cleanup_impl c w3 (KLog n) IFNum false) (fun _ w4 =>
+        bind (cleanup_impl c w3 (KLog n) IFNum None) (fun _ w4 =>
         (Ok (Active (Some {| rs_naming := NSNumR (N.of_nat idx1); rs_roll := roll; rs_cleanup := KLog n; rs_bg := c_bg c |}) wr path),
          if c_bg c then set_acts w4 0 else w4))))
       = (Ok (actk (N.of_nat idx') 0 wr), fw q' fl') /\ same_env q1 q' /\ KA false q' wr cl' idx' []
